@@ -583,4 +583,3 @@ func (e *Engine) conv(dst, src types.Type, x Value) Value {
 	}
 	panic(unsupported{fmt.Sprintf("conversion %v -> %v", src, dst)})
 }
-
